@@ -10,6 +10,14 @@ abbrev Key := Bytes
 abbrev Nm := Bytes
 abbrev Tm := String
 
+/-- bbolt key order: bytewise lexicographic -/
+def bytesLe : List UInt8 → List UInt8 → Bool
+  | [], _ => true
+  | _ :: _, [] => false
+  | a :: as, b :: bs => if a < b then true else if b < a then false else bytesLe as bs
+
+instance : KeyOrd Key := ⟨bytesLe⟩
+
 def parseKey (s : String) : Key := (Bytes.ofHex s).getD []
 
 /-- the checker lets a field through iff it is nil ("n") or lists the field -/
@@ -18,18 +26,45 @@ def checkerSets (c : String) (field : String) : Bool :=
 
 def parseTag (s : String) : Option Nm := if s = "~" then none else some (parseKey s)
 
-def mkVals (flag name mig cAt uAt tag : String) : Vals Nm Tm :=
-  { flag := flag = "t", migrate := mig = "t", cAt := cAt, uAt := uAt, tags := parseTag tag, name := parseKey name }
+def parseOwner (s : String) : Option Key := if s = "-" then none else some (parseKey s)
+
+def mkVals (flag name mig cAt uAt tag owner : String) : Vals Key Nm Tm :=
+  { flag := flag = "t", migrate := mig = "t", cAt := cAt, uAt := uAt, tags := parseTag tag, name := parseKey name,
+    owner := parseOwner owner }
+
+/-- o: the transaction's context; s: its GetSystemContext(); n: nested Db.Update handed the system
+    context; m: nested Db.Update handed the transaction's own context -/
+def ctxSys (topSys : Bool) (ctx : String) : Bool := topSys || ctx = "s" || ctx = "n"
 
 /-- `topSys`: the context handed to Db.Update is a system context, so every operation's context is -/
 def parseOp (topSys : Bool) (s : String) : Option (Op Key Nm Tm) :=
+  let sys := ctxSys topSys
   match s.splitOn ":" with
   | ["c", ctx, id, flag, name, mig, cAt, uAt, tag] =>
-    some (.create (topSys || ctx = "s") (parseKey id) (parseKey id).isEmpty (mkVals flag name mig cAt uAt tag))
+    some (.create (sys ctx) (parseKey id) (parseKey id).isEmpty (mkVals flag name mig cAt uAt tag "-"))
+  | ["c", ctx, id, flag, name, mig, cAt, uAt, tag, owner] =>
+    some (.create (sys ctx) (parseKey id) (parseKey id).isEmpty (mkVals flag name mig cAt uAt tag owner))
   | ["u", ctx, id, flag, name, ch, mig, cAt, uAt, tag] =>
-    some (.update (topSys || ctx = "s") (parseKey id) (mkVals flag name mig cAt uAt tag) (checkerSets ch "name")
-      (checkerSets ch "tags"))
-  | ["d", ctx, id] => some (.delete (topSys || ctx = "s") (parseKey id))
+    some (.update (sys ctx) (parseKey id) (mkVals flag name mig cAt uAt tag "-") (checkerSets ch "name")
+      (checkerSets ch "tags") (checkerSets ch "owner"))
+  | ["u", ctx, id, flag, name, ch, mig, cAt, uAt, tag, owner] =>
+    some (.update (sys ctx) (parseKey id) (mkVals flag name mig cAt uAt tag owner) (checkerSets ch "name")
+      (checkerSets ch "tags") (checkerSets ch "owner"))
+  | ["d", ctx, id] => some (.delete (sys ctx) (parseKey id))
+  | ["C", ctx, id, flag, name, mig, cAt, uAt, tag, owner, lvl] =>
+    some (.ccreate (sys ctx) (parseKey id) (parseKey id).isEmpty (mkVals flag name mig cAt uAt tag owner) (parseKey lvl))
+  | ["U", ctx, id, flag, name, ch, mig, cAt, uAt, tag, owner, lvl] =>
+    some (.cupdate (sys ctx) (parseKey id) (mkVals flag name mig cAt uAt tag owner) (checkerSets ch "name")
+      (checkerSets ch "tags") (checkerSets ch "owner") (checkerSets ch "level") (parseKey lvl))
+  | ["D", ctx, id] => some (.cdelete (sys ctx) (parseKey id))
+  | ["oc", _, id] => some (.ocreate (parseKey id) (parseKey id).isEmpty)
+  | ["od", ctx, id] => some (.odelete (sys ctx) (parseKey id))
+  | ["w", ctx, "T"] => some (.deleteWhere (sys ctx) .all)
+  | ["w", ctx, "n", n] => some (.deleteWhere (sys ctx) (.name (parseKey n)))
+  | ["w", ctx, "o", o] => some (.deleteWhere (sys ctx) (.owner (parseKey o)))
+  | ["w", ctx, "s", b] => some (.deleteWhere (sys ctx) (.flag (b = "t")))
+  | ["l", sid, oid] => some (.link (parseKey sid) (parseKey oid))
+  | ["x", sid, oid] => some (.unlink (parseKey sid) (parseKey oid))
   | ["r", id] => some (.read (parseKey id))
   | _ => none
 
@@ -42,6 +77,8 @@ def showErr : Err → String
   | .notFound => "!notFound"
   | .exists => "!exists"
   | .blank => "!blank"
+  | .noOwner => "!noOwner"
+  | .viaSysDelete => "!via:sysDelete"
 
 def showStamp : Stamp Tm → String
   | .now => "now"
@@ -51,16 +88,30 @@ def showTag : Option Nm → String
   | none => "~"
   | some t => Bytes.toWire t
 
-def viewModel (s : St Key Nm Tm) (pool : List Key) : String :=
+def showOwner : Option Key → String
+  | none => "-"
+  | some o => Bytes.toWire o
+
+def showPeers (ps : List Key) : String :=
+  match sortKeys ps with
+  | [] => "~"
+  | l => ",".intercalate (l.map Bytes.toWire)
+
+def viewOwners (owners : List Key) (opool : List Key) : String :=
+  String.join (opool.map fun o => "@" ++ Bytes.toWire o ++ "=" ++ tf (owners.contains o) ++ ";")
+
+def viewModel (s : St Key Nm Tm) (pool opool : List Key) : String :=
   String.join (pool.map fun id =>
-    Bytes.toWire id ++ "=" ++ (match s.get id with
-      | none => "f//////-"
+    Bytes.toWire id ++ "=" ++ (match s.ents.get id with
+      | none => "f/////////-"
       | some e => "t/" ++ tf e.isSystem ++ "/" ++ Bytes.toWire e.name ++ "/" ++ showTag e.tags ++ "/" ++
-          showStamp e.created ++ "/" ++ showStamp e.updated ++ "/" ++
+          showStamp e.created ++ "/" ++ showStamp e.updated ++ "/" ++ showOwner e.owner ++ "/" ++ showTag e.level ++ "/" ++
+          showPeers e.peers ++ "/" ++
           (match e.flag with | none => "-" | some true => "t" | some false => "f")) ++ ";")
+  ++ viewOwners s.owners opool
 
 def readModel (s : St Key Nm Tm) (id : Key) : String :=
-  match s.get id with
+  match s.ents.get id with
   | none => "none"
   | some e => tf e.isSystem ++ "/" ++ Bytes.toWire e.name
 
@@ -71,7 +122,8 @@ def opResult (s : St Key Nm Tm) (op : Op Key Nm Tm) (o : Out Key Nm Tm) : String
     | .read id => readModel s id
     | _ => "ok"
 
-def runTxModel (s : St Key Nm Tm) (keepGoing : Bool) (ops : List (Op Key Nm Tm)) (pool : List Key) : St Key Nm Tm × String :=
+def runTxModel (s : St Key Nm Tm) (keepGoing : Bool) (ops : List (Op Key Nm Tm)) (pool opool : List Key) :
+    St Key Nm Tm × String :=
   let rec go (cur : St Key Nm Tm) (ops : List (Op Key Nm Tm)) (acc : List String) : St Key Nm Tm × List String × String :=
     match ops with
     | [] => (cur, acc.reverse, "")
@@ -80,67 +132,72 @@ def runTxModel (s : St Key Nm Tm) (keepGoing : Bool) (ops : List (Op Key Nm Tm))
       match o.err with
       | none => go o.st rest (opResult cur op o :: acc)
       | some e =>
-        if keepGoing && e ≠ .sysCreate then go o.st rest (showErr e :: acc)
-        else (s, (showErr e :: acc).reverse, viewModel o.st pool)
+        if keepGoing && e.ignorable then go o.st rest (showErr e :: acc)
+        else (s, (showErr e :: acc).reverse, viewModel o.st pool opool)
   let r := go s ops []
-  (r.1, ";".intercalate r.2.1 ++ "|" ++ r.2.2 ++ "|" ++ viewModel r.1 pool)
+  (r.1, ";".intercalate r.2.1 ++ "|" ++ r.2.2 ++ "|" ++ viewModel r.1 pool opool)
 
 def parseTx (t : String) : Bool × Bool × List String :=
   match t.splitOn "!" with
   | [head, body] => (head.startsWith "S", head.endsWith "k", body.splitOn ";")
   | _ => (false, false, [])
 
+def parsePools (p : String) : List Key × List Key :=
+  match p.splitOn "/" with
+  | [a] => ((a.splitOn ",").map parseKey, [])
+  | [a, b] => ((a.splitOn ",").map parseKey, if b = "" then [] else (b.splitOn ",").map parseKey)
+  | _ => ([], [])
+
 def step (line : String) : String :=
   match splitSp line with
   | _kind :: p :: txs =>
-    let pool := (p.splitOn ",").map parseKey
+    let (pool, opool) := parsePools p
     let r := txs.foldl (fun (acc : St Key Nm Tm × List String) t =>
       let (topSys, keep, ops) := parseTx t
-      let o := runTxModel acc.1 keep (ops.filterMap (parseOp topSys)) pool
-      (o.1, acc.2 ++ [o.2])) (([] : St Key Nm Tm), [])
+      let o := runTxModel acc.1 keep (ops.filterMap (parseOp topSys)) pool opool
+      (o.1, acc.2 ++ [o.2])) ((St.empty : St Key Nm Tm), [])
     " ".intercalate r.2
   | _ => "bad-case"
 
 /-! ### spec: failing calls only *fail* (`!`), uncommitted partial states are not described (`*`),
-    and the storage form of the flag is not part of the property (last field of a view entry `_`) -/
+    and neither the storage form of the flag nor the link set is part of the property (last two
+    fields of a view entry `_`) -/
 
-def viewSpec (s : SSt Key Nm Tm) (pool : List Key) : String :=
+def viewSpec (s : SSt Key Nm Tm) (pool opool : List Key) : String :=
   String.join (pool.map fun id =>
-    Bytes.toWire id ++ "=" ++ (match s.get id with
-      | none => "f//////_"
+    Bytes.toWire id ++ "=" ++ (match s.ents.get id with
+      | none => "f////////_/_"
       | some e => "t/" ++ tf e.isSys ++ "/" ++ Bytes.toWire e.name ++ "/" ++ showTag e.tags ++ "/" ++
-          showStamp e.created ++ "/" ++ showStamp e.updated ++ "/_") ++ ";")
+          showStamp e.created ++ "/" ++ showStamp e.updated ++ "/" ++ showOwner e.owner ++ "/" ++ showTag e.level ++
+          "/_/_") ++ ";")
+  ++ viewOwners s.owners opool
 
-def runTxSpec (s : SSt Key Nm Tm) (keepGoing : Bool) (ops : List (Op Key Nm Tm)) (pool : List Key) : SSt Key Nm Tm × String :=
+def runTxSpec (s : SSt Key Nm Tm) (keepGoing : Bool) (ops : List (Op Key Nm Tm)) (pool opool : List Key) :
+    SSt Key Nm Tm × String :=
   let rec go (cur : SSt Key Nm Tm) (ops : List (Op Key Nm Tm)) (acc : List String) : SSt Key Nm Tm × List String × String :=
     match ops with
     | [] => (cur, acc.reverse, "")
     | op :: rest =>
       match sstep cur op with
-      | some s' =>
+      | .ok s' =>
         let res := match op with
-          | .read id => (match cur.get id with | none => "none" | some e => tf e.isSys ++ "/" ++ Bytes.toWire e.name)
+          | .read id => (match cur.ents.get id with | none => "none" | some e => tf e.isSys ++ "/" ++ Bytes.toWire e.name)
           | _ => "ok"
         go s' rest (res :: acc)
-      | none =>
-        -- a refused create always aborts the body; other failures only in abort mode
-        let isCreate := match op with | .create .. => true | _ => false
-        let refusedCreate := match op with
-          | .create sys id blank v => !blank && (cur.get id).isNone && v.flag && !sys
-          | _ => false
-        if keepGoing && !(isCreate && refusedCreate) then go cur rest ("!" :: acc)
+      | .fail ignorable =>
+        if keepGoing && ignorable then go cur rest ("!" :: acc)
         else (s, ("!" :: acc).reverse, "*")
   let r := go s ops []
-  (r.1, ";".intercalate r.2.1 ++ "|" ++ r.2.2 ++ "|" ++ viewSpec r.1 pool)
+  (r.1, ";".intercalate r.2.1 ++ "|" ++ r.2.2 ++ "|" ++ viewSpec r.1 pool opool)
 
 def specStep (line : String) : String :=
   match splitSp line with
   | _kind :: p :: txs =>
-    let pool := (p.splitOn ",").map parseKey
+    let (pool, opool) := parsePools p
     let r := txs.foldl (fun (acc : SSt Key Nm Tm × List String) t =>
       let (topSys, keep, ops) := parseTx t
-      let o := runTxSpec acc.1 keep (ops.filterMap (parseOp topSys)) pool
-      (o.1, acc.2 ++ [o.2])) (([] : SSt Key Nm Tm), [])
+      let o := runTxSpec acc.1 keep (ops.filterMap (parseOp topSys)) pool opool
+      (o.1, acc.2 ++ [o.2])) ((SSt.empty : SSt Key Nm Tm), [])
     " ".intercalate r.2
   | _ => "bad-case"
 
